@@ -100,6 +100,26 @@ std::vector<i64> S_set(int w, int r, bool with_nan, bool with_int_min)
   return out;
   }
 
+std::vector<i64> S2_set(int w, bool with_nan)
+  {
+  std::vector<i64> out;
+  for( int e1 = 1; e1 <= 62; ++e1 ) for( int e2 = 0; e2 + w <= e1; ++e2 ) for( i64 m1 = 1; m1 < (1ll << w); ++m1 ) for( i64 m2 = 1; m2 < (1ll << w); ++m2 )
+    {
+    i128 v = (static_cast<i128>(m1) << e1) | (static_cast<i128>(m2) << e2);
+    if( v > FX_MAX ) continue;
+    out.push_back(static_cast<i64>(v)); out.push_back(-static_cast<i64>(v));
+    }
+  if( with_nan ) { out.push_back(FX_NAN); out.push_back(-FX_NAN); }
+  std::sort(out.begin(), out.end()); out.erase(std::unique(out.begin(), out.end()), out.end());
+  return out;
+  }
+std::vector<i64> merge_sets(std::vector<i64> a, std::vector<i64> const& b)
+  {
+  a.insert(a.end(), b.begin(), b.end());
+  std::sort(a.begin(), a.end()); a.erase(std::unique(a.begin(), a.end()), a.end());
+  return a;
+  }
+
 std::vector<i64> filter_abs_below(std::vector<i64> const& v, i64 bound)
   {
   std::vector<i64> r;
